@@ -129,4 +129,82 @@ def reprint(src):
     return ast.unparse(ast.parse(src)) + "\n"
 
 
-TRANSFORMS = {"alpha": alpha, "reprint": reprint}
+class _RetTemp(ast.NodeTransformer):
+    """return <call/binop> -> tmp = <expr>; return tmp"""
+
+    def _block(self, stmts):
+        out = []
+        for st in stmts:
+            st = self.visit(st)
+            if isinstance(st, ast.Return) and isinstance(st.value, (ast.Call, ast.BinOp,
+                                                                    ast.Subscript, ast.IfExp)):
+                out.append(ast.Assign(targets=[ast.Name("rv_tmp", ast.Store())], value=st.value,
+                                      lineno=st.lineno))
+                out.append(ast.Return(value=ast.Name("rv_tmp", ast.Load())))
+            else:
+                out.append(st)
+        return out
+
+    def generic_visit(self, node):
+        for f in ("body", "orelse", "finalbody"):
+            b = getattr(node, f, None)
+            if isinstance(b, list) and b and isinstance(b[0], ast.stmt):
+                setattr(node, f, self._block(b))
+        for h in getattr(node, "handlers", []) or []:
+            h.body = self._block(h.body)
+        for c in getattr(node, "cases", []) or []:
+            c.body = self._block(c.body)
+        return node
+
+
+def rettemp(src):
+    t = ast.parse(src)
+    _RetTemp().visit(t)
+    ast.fix_missing_locations(t)
+    return ast.unparse(t) + "\n"
+
+
+class _IfSwap(ast.NodeTransformer):
+    """if c: A else: B  ->  if not c: B else: A   (only when there is an else)"""
+
+    def visit_If(self, n):
+        self.generic_visit(n)
+        if n.orelse:
+            n.test = ast.UnaryOp(op=ast.Not(), operand=n.test)
+            n.body, n.orelse = n.orelse, n.body
+        return n
+
+
+def ifswap(src):
+    t = ast.parse(src)
+    _IfSwap().visit(t)
+    ast.fix_missing_locations(t)
+    return ast.unparse(t) + "\n"
+
+
+_PURE = (ast.Name, ast.Constant, ast.Attribute)
+_FLIP = {ast.Lt: ast.Gt, ast.Gt: ast.Lt, ast.LtE: ast.GtE, ast.GtE: ast.LtE,
+         ast.Eq: ast.Eq, ast.NotEq: ast.NotEq}
+
+
+class _CmpFlip(ast.NodeTransformer):
+    """a < b -> b > a for side-effect-free operands"""
+
+    def visit_Compare(self, n):
+        self.generic_visit(n)
+        if len(n.ops) == 1 and type(n.ops[0]) in _FLIP and isinstance(n.left, _PURE) \
+                and isinstance(n.comparators[0], _PURE):
+            return ast.Compare(left=n.comparators[0], ops=[_FLIP[type(n.ops[0])]()],
+                               comparators=[n.left])
+        return n
+
+
+def cmpflip(src):
+    t = ast.parse(src)
+    _CmpFlip().visit(t)
+    ast.fix_missing_locations(t)
+    return ast.unparse(t) + "\n"
+
+
+TRANSFORMS = {"alpha": alpha, "reprint": reprint, "rettemp": rettemp, "ifswap": ifswap,
+              "cmpflip": cmpflip}
